@@ -264,12 +264,16 @@ def check_C15(A, R, tier):
                     ia, ib = id_syms(sc["args"][0]), id_syms(sc["args"][1])
                     if ia and ib and len(ia) == 1 and len(ib) == 1:
                         asked.add((list(ia)[0], list(ib)[0]))
-            ok = len(pairs_) == 1 and (not asked or pairs_ <= asked)
+            # the dependency check itself also writes the verdict for 'no record at all' without asking; everywhere else the
+            # verdict must come from a comparison made in the same activation
+            in_check = fn in [c_.name for c_ in cands]
+            ok = len(pairs_) == 1 and ((not asked and in_check) or (bool(asked) and pairs_ <= asked))
             if not ok or len(pairs_) == 1:
                 seen5.add(fn)
             R.ob("R15.5", "%s | the verdict is cached only for the dependency that was compared" % short(fn), ok,
-                 detail="one activation writes the cached verdict of %d different dependencies (compared: %d): a verdict the comparison "
-                        "never gave for that pair decides whether its consumer is executed" % (len(pairs_), len(asked)), site=A.site(ws_[0]))
+                 detail="an activation writes the cached verdict of %d dependencies, the comparison was asked about %d of them: a verdict the "
+                        "comparison never gave for that pair decides whether its consumer is executed" % (len(pairs_), len(pairs_ & asked)),
+                 site=A.site(ws_[0]))
     # R15.3: the changed-output error needs the comparison to say 'altered'
     n = 0
     for (entry, label), run in runs:
@@ -543,6 +547,46 @@ def invalidated_states(A):
     return out
 
 
+def rule_no_skip_when_invalidated(A, R, rule):
+    """An invalidated Ephemeral that has a consumer which is not an Ephemeral is never skipped, whatever state that consumer is in:
+    a skipped job counts as up to date (its records and the per-dependency records into it are kept/refreshed) although it was
+    never rebuilt.  (Only Ephemerals nobody can need - no consumer, or Ephemeral consumers only - may be left not up to date.)"""
+    from interp import Interp, Config
+    C = A.classes()
+    K = kinds(A)
+    sk = skip_kind(A)
+    inv = invalidated_states(A)
+    cleanup_kinds = set(A.kind_of(s) for s in C["CleanupOffered"])
+    from rules_more import gate_functions
+    gates = gate_functions(A)
+    good_gates = [n_ for n_, g_ in gates.items() if g_["passing"] <= C["Finished"]]
+    fns = [A.facts.body(n_) for n_ in sorted(consider_entry_fns(A, sk))]
+    n = 0
+    for cb in fns:
+        for s in sorted(inv):
+            if A.kind_of(s) not in cleanup_kinds:
+                continue
+            bad = []
+            for d in sorted(A.reach()):
+                if A.kind_of(d) in cleanup_kinds:
+                    continue
+                cfg = Config(label="NSI", cell_init={"param": fin(A.L.jobstate, [s]), "nbr:Outgoing:param": fin(A.L.jobstate, [d])})
+                cfg.nonempty_nbrs = True
+                I = Interp(A.facts, A.uni, A.layout, cfg)
+                I.models = dict(I.models)
+                for g_ in good_gates:
+                    I.models[g_] = (lambda I_, st_, fr_, bi_, t_, a_, sp_: [(TRUE, st_)])
+                fr, out, col = I.analyze(cb)
+                skips = [x for k, x in I.rec.facts.items() if k[0] == "push_signal" and sk in x["kinds"] and is_role(x["key"], "param")]
+                if skips:
+                    bad.append(d)
+            n += 1
+            R.ob(rule, "consider logic | %s with a consumer that is not an Ephemeral | is never skipped" % A.sname(s), not bad,
+                 detail="with the consumer in state %s the invalidated Ephemeral is skipped: it then counts as up to date and the records "
+                        "of what it consumed are refreshed although it was not rebuilt" % A.snames(bad)[:3])
+    R.floor(rule, "invalidated states of the cleanup kind", n, 1)
+
+
 def rule_validation_verdict(A, R, rule):
     """the validation function never answers 'validated' past an undecided upstream, an invalidated dependency, or an upstream
     for which no comparison was consulted.  Returns (validation functions, verdict type)."""
@@ -744,6 +788,8 @@ def check_C03(A, R, tier):
     rule_started_failed_dropped(A, R, "R3.6")
     rule_failed_edges_untouched(A, R, "R3.6")
     rule_never_started_kept(A, R, "R3.6")
+    # R3.8: an invalidated Ephemeral somebody can need is never skipped
+    rule_no_skip_when_invalidated(A, R, "R3.8")
     # R3.7: a job that was skipped early and whose upstream fails afterwards must not stay 'skipped': the failure reaches every
     # direct downstream (= R7.1/R7.2)
     from rules_more import rule_failure_propagation
